@@ -239,6 +239,32 @@ PROPS = {
         "technique": "Coq proof (ordered-map refinement, atomicity, round trip) + vm_compute correspondence on generated documents and "
                      "patch lists + purity/determinism oracle on every call",
     },
+    "C18": {
+        "seed": 118, "gentie": 0, "corr": ["Validator"], "coq_dirs": ["Doc", "Json", "Corr/Validator", "Props/C18"],
+        "gens": [{"name": "gen_validator", "pkg": "./cmd/gen_validator"},
+                 {"name": "gen_jsonpatch", "pkg": "./cmd/gen_jsonpatch", "args": ["-coqdir", "{COQ}"]}],
+        "rule": "validators: patch values generated around every rule (each violation singly and in combination: action, ids "
+                "(length 0/1/50/51, characters), duplicate ids, key types x purposes, key material members, service types, endpoint "
+                "arrays with a bad element at every position, non-object elements at every position, ill-typed / null / missing "
+                "replace sections, JSON-patch path / from variants: null, non-string, empty, no leading slash, protected, near-miss "
+                "prefix) through patchvalidator.Validate and operationparser.ValidateDelta; engine: operation lists over all six "
+                "RFC 6902 operations with present / absent / ill-typed members over small documents, every case run in a crash-"
+                "isolated child process (memory and stack limits, timeout) at library and composer level; distinct = distinct case terms",
+        "trusted_base": ["modelled, not verified: net/url URI verdicts (Section variables, recorded per string), encoding/json decoding "
+                         "of patches; the json-patch v4.1.0 engine is modelled as it is, including its aliasing"],
+        "assumptions": ["documents are JSON objects with pairwise distinct member names (what the composer produces)"],
+        "level_text": "Theorems: an accepted delta obeys every structural rule of the property, over the raw arrays it carries (no "
+                      "entry escapes); an accepted JSON patch can neither address, move, copy over nor remove the public-key or "
+                      "service sections even through aliasing (proved over the engine's pointer-graph model); validation never "
+                      "panics; engine panics are errors of ApplyPatches for every input. The no-crash clause is REFUTED for the "
+                      "unrepaired third-party engine: two classes of accepted patches kill the process (known findings F11-cycle, "
+                      "F11-oom, witnesses proved in the model and reproduced in child processes); every other accepted delta in the "
+                      "explored space returns a document or an error. Partial: absence of process death outside the two characterised "
+                      "classes is established by the model's agreement with the real engine on the generated cases, not by a theorem.",
+        "level_note": "Trusted: Coq kernel + vm_compute; generators; child-process isolation (ulimit -v, 64 MB stack, 60 s).",
+        "technique": "Coq proof (validator rules, protected-section invariance over a pointer-graph model of the JSON-patch engine) + "
+                     "vm_compute correspondence of validator and engine models against the real code in crash-isolated child processes",
+    },
     "C19": {
         "seed": 119, "gentie": 0, "corr": ["Transformer"], "coq_dirs": ["Doc", "Json", "Corr/Transformer", "Props/C19"],
         "gens": [{"name": "gen_transformer", "pkg": "./cmd/gen_transformer"}],
